@@ -119,7 +119,12 @@ def check(ctx):
     for o, a in zip(outs, parts):
         runner.run_job(ctx, _job(ctx, "auto", o, a))
         paths.append(o)
+    # (D) two generations in quick succession: a big table, and a small one while the big one is still being parsed
+    ga = ["-mode", "gen2", "-count", 1 if ctx.quick else 4]
+    gouts = run_parts(ctx, "gen2", [ga], 1)
+    runner.run_job(ctx, _job(ctx, "gen2", gouts[0], ga))
     st = _stats(paths)
+    st["overlapping_generations_settled"] = sum(1 for line in open(gouts[0]) if '"ev":"gen2"' in line)
     # in composition: a listed client is answered with its address by the file plugin, which ENDS the chain (whole chains, Conv)
     from . import fam_conv
     st.update(fam_conv.run(ctx))
